@@ -153,8 +153,10 @@ pub fn c09_sweep(max_l: usize) -> Vec<Program> {
                     stages.push(Stage::StepBy { k });
                 }
                 for fill in [None, Some(fill_for(ty))] {
-                    stages.push(Stage::FFill { fill: fill.clone() });
-                    stages.push(Stage::BFill { fill });
+                    for mask in 0..3u8 {
+                        stages.push(Stage::FFill { fill: fill.clone(), mask });
+                        stages.push(Stage::BFill { fill: fill.clone(), mask });
+                    }
                 }
                 stages.push(Stage::Fill { v: fill_for(ty) });
                 let (lo, hi) = if ty.is_float() { (Val::F(-1.0), Val::F(2.0)) } else { (Val::I(-1), Val::I(2)) };
@@ -725,8 +727,10 @@ pub fn c09_histories(max_l: usize, depth: usize) -> Vec<Program> {
                 Stage::Scan,
                 Stage::ToTrust,
                 Stage::StepBy { k: 2 },
-                Stage::FFill { fill: None },
-                Stage::BFill { fill: Some(fill_for(ty)) },
+                Stage::FFill { fill: None, mask: 0 },
+                Stage::BFill { fill: Some(fill_for(ty)), mask: 0 },
+                Stage::FFill { fill: None, mask: 2 },
+                Stage::BFill { fill: None, mask: 1 },
                 Stage::Fill { v: fill_for(ty) },
                 Stage::VClip { lo: fill_for(ty), hi: Val::Null },
             ];
